@@ -742,9 +742,10 @@ def deserialize_problem_as_url(
     return_size: bool = False,
 ) -> Optional[Union[T, Tuple[int, int, T]]]:
     m = _DESERIALIZE_URL_REG.match(url)
-    if allow_failure and m is None:
-        return None
-    assert m is not None
+    if m is None:
+        if allow_failure:
+            return None
+        raise ValueError("not a puzzle URL")
 
     puzzle = m[1]
     width = int(m[2])
